@@ -161,6 +161,15 @@ def HeightOK : Node → Prop
   | leaf .. => True
   | inner _ h _ l r _ => HeightOK l ∧ HeightOK r ∧ h = max l.height r.height + 1
 
+/-- Fibonacci numbers `0, 1, 1, 2, 3, 5, …` (computed in linear time): a tree of height `h`
+satisfying the invariant has at least `fib (h + 2)` leaves. -/
+def fibPair : Nat → Nat × Nat
+  | 0 => (0, 1)
+  | n + 1 => ((fibPair n).2, (fibPair n).1 + (fibPair n).2)
+
+/-- `fib n`. -/
+def fib (n : Nat) : Nat := (fibPair n).1
+
 /-- The IAVL node invariant. -/
 def Inv (t : Node) : Prop := BST t ∧ KeyOK t ∧ Balanced t ∧ SizeOK t ∧ HeightOK t
 
